@@ -2979,7 +2979,7 @@ class bs_rel_off(bs_cond_imm):
         parent_len = len(prefix) * 8 + self.parent.l + self.l
         assert(parent_len % 8 == 0)
 
-        v = int(self.expr) - parent_len // 8
+        v = (int(self.expr) - parent_len // 8) & ((1 << l) - 1)
         if prefix is None:
             return
         mask = ((1 << self.l) - 1)
